@@ -13,8 +13,8 @@ REGISTRY: dict[str, dict] = {
              "Non-trivial = the history has more distinct keys than slots (evictions occur).",
     ),
     "C08": dict(
-        modules=["C08", "Tables"],
-        theorems=[T + "C08_hint_delimited", T + "C08_hint_single", T + "C08_hint_prefix"],
+        modules=["C08", "Tables", "Plugin"],
+        theorems=[T + "C08_hint_delimited", T + "C08_hint_single", T + "C08_hint_prefix", T + "C08_plugin_detected", T + "plugin_framing_follows_stream"],
         table_theorems=[T + "tables_hint3", T + "tables_hint_short"],
         rule="HINT: detector tabulated over headers (quick: 16 representative byte values per position = 4096 headers; "
              "thorough: all 2^24) and checked to depend only on the three ==0x0A bits; paired delimited/non-delimited "
@@ -178,8 +178,8 @@ REGISTRY: dict[str, dict] = {
              "case with >= 2 statements.",
     ),
     "C02": dict(
-        modules=["C03", "C04", "C15", "C07", "C02Full"],
-        theorems=[T + "C02_graphs_dataset", T + "C02_triples_dataset", T + "C03_triples", T + "C03_quads", T + "C03_graphs",
+        modules=["C03", "C04", "C15", "C07", "C02Full", "Plugin"],
+        theorems=[T + "C02_plugin_graph", T + "C02_plugin_dataset", T + "C01_rflat_triples", T + "C02_graphs_dataset", T + "C02_triples_dataset", T + "C03_triples", T + "C03_quads", T + "C03_graphs",
                   T + "C04_decoder_refines_spec", T + "C02_graphs_loops_agree", T + "C15_serializers_agree_triples", T + "C15_serializers_agree_quads",
                   T + "C15_integrations_agree_rows", T + "C07_frames_eq_rows"],
         rule="rdflib Graph (TRIPLES) / Dataset (QUADS or GRAPHS physical type) of RDF 1.1 data, presets down to 8/1/1, frame "
